@@ -101,6 +101,9 @@ class PrintStatementRule(MultiLanguageLintRule):  # thailint: ignore[srp]
 
         metadata = context.metadata
 
+        if "improper_logging" in metadata or "improper-logging" in metadata:
+            return load_linter_config(context, "improper_logging", PrintStatementConfig)
+
         if "print_statements" in metadata:
             return load_linter_config(context, "print_statements", PrintStatementConfig)
 
